@@ -36,6 +36,8 @@ pub fn main() {
     crate::run_lines(|v| {
         let mut state = LlamaState::new();
         let mut rt = CoreRuntime::new();
+        let mut rt_flag = CoreRuntime::new();   // same writes, but FC/FZ go through the by-name flag API set_flag/get_flag
+        let mut flag_after = Vec::new();
         let k = v.get("roundtrip_every").and_then(|x| x.as_u64()).unwrap_or(0) as usize;
         let mut after = Vec::new();
         let mut rt_after = Vec::new();
@@ -48,6 +50,13 @@ pub fn main() {
                     state.set_reg(r, val);
                 }
                 rt.set_reg(name, val);
+                if name == "FC" || name == "FZ" {
+                    rt_flag.set_flag(name, val as u8);
+                } else {
+                    rt_flag.set_reg(name, val);
+                }
+                flag_after.push(json!({"regs": NAMES.iter().map(|n| rt_flag.get_reg(n)).collect::<Vec<u32>>(),
+                                       "fc": rt_flag.get_flag("FC"), "fz": rt_flag.get_flag("FZ")}));
                 after.push(all(&state));
                 rt_after.push(NAMES.iter().map(|n| rt.get_reg(n)).collect::<Vec<u32>>());
                 if k > 0 && (i + 1) % k == 0 {
@@ -70,7 +79,7 @@ pub fn main() {
             }
         }
         let mut out = json!({"id": v.get("id").cloned().unwrap_or(Value::Null), "after": after,
-                             "rt_after": rt_after, "roundtrips": rts});
+                             "rt_after": rt_after, "flag_after": flag_after, "roundtrips": rts});
         if let Some(h) = v.get("unpack_blob").and_then(|b| b.as_str()) {
             let bytes: Vec<u8> = (0..h.len() / 2).filter_map(|i| u8::from_str_radix(&h[2 * i..2 * i + 2], 16).ok()).collect();
             match unpack_registers(&bytes) {
